@@ -187,6 +187,13 @@ def enc_calls(g, tier, heavy=False):
             else:
                 es += [r.randrange(4), r.choice([0, 1, 0xFF]), r.choice([first, 0, 0xFF]), phys]
         calls.append(("reqRouting", [hx(es)]))
+        if all(es[k] < 4 for k in range(0, len(es), 4)):
+            calls.append(("reqRoutingNew", [hx(es)]))
+    # entries built by the constructor, every physical address / EID pattern a bus owner might use
+    for ph in (0x61, 0x10, 0x00, 0xFF, 0xC2):
+        for first in (0x00, 0x01, 0x08, 0x30, 0xFF):
+            for size in (0, 1, 2, 0xFF):
+                calls.append(("reqRoutingNew", [hx([r.randrange(4), size, first, ph])]))
     # responses
     for cc in range(6):
         for rej in (0, 1):
@@ -266,6 +273,20 @@ def gen_encoders(g, tier, addr_mode, bufs=("exact+", "rand")):
         a = addr_of.get(cid, 0)
         # destinations include the context's own address and both stored EIDs
         dst = r.choice([0x34, 0x00, 0x7F, 0x80, 0xFF, r.randrange(256), a, (a + 0x31) & 0xFF, (a + 0x57) & 0xFF])
+        if name in ("genPci", "genIana", "genSpdm", "genControl") and r.random() < 0.5:
+            # the additional header as a view into the data slice itself
+            data = g.rbytes(r.choice([2, 4, 9]))
+            k = r.randrange(0, len(data) + 1)
+            g.add("encalias %s %s %s %d %s %s" % (cid, hb(dst), name, k, hx(data), hx(g.buf(len(data) * 2 + 20))), "alias:" + name)
+        if name == "vendorDefined" and r.random() < 0.6:
+            # bodies that are themselves packets, or begin with this very call's headers
+            nested = forge(r.randrange(128), r.randrange(128), g.rb(), g.rb(), r.choice([0, 0x7E, 0x05]), g.rbytes(r.randrange(0, 8)))
+            own_tr = [0x01, dst, a, 0xC8]
+            own_sm = [((dst & 0x7F) << 1) & 0xFF, 0x0F]
+            for body in (nested, own_tr + g.rbytes(3), own_tr, own_sm + g.rbytes(4), [0x01, dst, a], nested[:9]):
+                for f in ("00.00001234.0000", "01.00c0ffee.0000"):
+                    g.add("enc %s %s vendorDefined %s %s %s" % (cid, hb(dst), f, hx(body), hx(g.buf(len(body) + 30))), "nested-body")
+                g.add("enc %s %s genSpdm spdm none %s %s" % (cid, hb(dst), hx(body), hx(g.buf(len(body) + 30))), "nested-body")
         size = call_size(name, args)
         for mode in bufs:
             if mode == "exact+":
@@ -809,9 +830,14 @@ def gen_relations(g, verb, ctxs, proc_buf=None):
                     q[i] ^= 1 << bit
                     q[j] ^= 1 << bit
                     emit(refix(q), "relation:same-bit-%d-%d" % (i, j))
-    # packets that repeat the context's own configuration back at it
-    for cid in ctxs:
-        pass
+    # products of special values: destination EID x source EID x flags x first control byte
+    special = (0x00, 0xFF, 0x23, 0x7F, 0x80, 0x10)
+    for de in special:
+        for se in special:
+            for flags in (0xC8, 0x08, 0x88, 0x00):
+                for b9, rest in ((0x80, [2]), (0xC0, [2]), (0xA0, [2]), (0xDF, [2]), (0x80, [1, 0, 0x31]), (0xC0, [1, 1, 0x32]), (0xC0, [5]),
+                                 (0x00, [4, 0, 1, 0xF1, 0xF3, 0xF1, 0]), (0x40, [4, 0, 1, 0xF1, 0xF3, 0xF1, 0])):
+                    emit(forge(0x23, 0x34, de, se, 0, [b9] + rest, flags=flags), "relation:special-product")
 
 
 def gen_own_config(g, tier):
@@ -1019,6 +1045,8 @@ def gen_for(prop, tier, seed):
                 g.add("proc %s %s %s" % (cid, hx(p), hx(g.buf(64))), "answer-foreign:" + lab)
     elif prop == "C13":
         gen_repeats(g, tier, ("proc",))
+        c13 = [g.ctx(0x23, [0x7E], [(0, 0x1234, 0xAB)]), g.ctx(0x10, [], g.rand_vendors(2))]
+        gen_relations(g, "proc", c13)
         gen_state_probes(g, tier)
         gen_exact_buffers(g, tier)
         # assignments processed into buffers too small for the answer: whatever the call does, both
@@ -1140,7 +1168,7 @@ def gen_for(prop, tier, seed):
             L = resp_len(body[1], {"c1": [0x7E], "c2": [1, 2, 3], "c3": []}[cid], [(0, 0, 0)])
             for pre in ([(src << 1) & 0xFF, 0x0F, L - 4], rq[:3], [(src << 1) & 0xFF, 0x0F, L - 4, ((addr & 0x7F) << 1) | 1, 1, src]):
                 g.add("len %s %s" % (cid, hx(pre)), "after-traffic:probe")
-        if T:
+        if True:
             # all 2^24 three-byte prefixes, in-process in the executor against the closed form
             for b0 in range(256):
                 g.add("lensweep %s %s" % (hb(b0), hx(g.rbytes(r.choice([0, 0, 3, 20])))), "sweep-2^24")
@@ -1151,6 +1179,10 @@ def gen_for(prop, tier, seed):
     elif prop == "C18":
         gen_repeats(g, tier, ("view",))
         gen_views(g, tier)
+        # exhaustive in-process enumerations against the closed forms proved in Props/Ctors.lean / C18.lean
+        g.add("sweep routing-new", "exhaustive:routing-new-2^26")
+        g.add("sweep ctrl-new", "exhaustive:ctrl-new")
+        g.add("sweep transport-from-buf 00 ff", "exhaustive:transport-from-buf-2^32")
     elif prop == "C19":
         for b in range(256):
             for k in ("cmd", "msg", "cc"):
